@@ -186,6 +186,7 @@ class Kernel:
         self.kill_terminates = True
         self.wakeup_fd = -1
         self.arrivals = 0
+        self.blocked = set()
         self.bypass = False       # True while the harness itself runs a real helper process
         self.on_block = None      # called when the main thread would block in read()
 
@@ -264,6 +265,7 @@ class Kernel:
                 fds[name] = os.dup(fd)
         p = Proc(pid, argv, envd, cwd_s, fds, 0)
         p.stdio = {"out": c2pwrite, "err": errwrite}
+        p.blocked = set(self.blocked)         # signal mask inherited across fork/exec
         self.procs[pid] = p
         e = self.ev("spawn", pid, envd.get("COND_NAME"))
         p.t_spawn = e[1]
@@ -423,6 +425,8 @@ class Kernel:
             raise ProcessLookupError(errno.ESRCH, "No such process")
         e = self.ev("killpg", pgid, p.name, int(sig))
         p.killed.append((e[1], int(sig)))
+        if int(sig) in getattr(p, "blocked", ()) and int(sig) != int(signal.SIGKILL):
+            return                      # the child inherited a mask that blocks this signal: it stays pending, the child runs on
         if p.state == "run" and self.kill_terminates and int(sig) in (int(signal.SIGTERM), int(signal.SIGKILL), int(signal.SIGINT)):
             # default disposition: the task's process group dies, its pipes close
             p.status = int(sig)          # real wait-status encoding of 'killed by sig'
@@ -438,6 +442,15 @@ class Kernel:
         if pid in self.procs:
             return self.killpg(pid, sig)
         return self._real["kill"](pid, sig)
+
+    def pthread_sigmask(self, how, mask):
+        """The calling thread's signal mask is inherited by children created while it is in effect."""
+        old = self._real["pthread_sigmask"](how, mask)
+        try:
+            self.blocked = set(int(x) for x in self._real["pthread_sigmask"](signal.SIG_BLOCK, []))
+        except Exception:
+            pass
+        return old
 
     def set_wakeup_fd(self, fd, **kw):
         """signal.set_wakeup_fd: the interpreter's C-level handler writes the signal
@@ -488,7 +501,9 @@ class Kernel:
             "kill": os.kill, "signal": signal.signal, "time": time.time,
             "W": (os.WIFEXITED, os.WEXITSTATUS, os.WIFSIGNALED, os.WTERMSIG),
             "symlink": os.symlink, "mkdir": os.mkdir, "set_wakeup_fd": signal.set_wakeup_fd,
+            "pthread_sigmask": signal.pthread_sigmask,
         }
+        signal.pthread_sigmask = self.pthread_sigmask
         signal.set_wakeup_fd = self.set_wakeup_fd
         os.symlink = self.symlink
         os.mkdir = self.mkdir
@@ -529,6 +544,7 @@ class Kernel:
         os.symlink = r["symlink"]
         os.mkdir = r["mkdir"]
         signal.set_wakeup_fd = r["set_wakeup_fd"]
+        signal.pthread_sigmask = r["pthread_sigmask"]
         os.WIFEXITED, os.WEXITSTATUS, os.WIFSIGNALED, os.WTERMSIG = r["W"]
         for p in self.procs.values():
             for fd in p.fds.values():
